@@ -9,6 +9,9 @@ import MM.Model.C21
     w <enabled 0|1> <users> <basic>                       -> `401` | `pass`   (HTTP Basic gate of the WebSocket listener)
     ws <enabled 0|1> <users> <basic> <dial> <udp><icmp> <input>   a real WebSocket client against the real listener:
                                                           -> `401` | `r … a …` (every server message = one binary frame)
+        optional 8th token: the listener's own HTTP credential store — `c=agent` (default: what the agent configures),
+        `c=nil` (WebSocketConfig.Credentials == nil), `c=<users>` (a store built from another user list);
+        basic `m` = a malformed Authorization header
       users : `-` or `/`-separated `name.password.hash` — name/password hex or `-`;
               hash `-` (none) | `g<pw hex|->` (a real bcrypt hash of that password) | `j<hex>` (a junk hash string)
       basic : `-` (no Authorization header) or `name.password` (hex or `-`)
@@ -34,7 +37,7 @@ def parseUsers (s : String) : Option (List User) :=
   if s = "-" then some [] else (s.splitOn "/").mapM parseUser
 
 def parseBasic (s : String) : Option (Option (Bytes × Bytes)) :=
-  if s = "-" then some none
+  if s = "-" ∨ s = "m" then some none
   else match s.splitOn "." with
     | [n, p] => do pure (some (← bytesOfHex n, ← bytesOfHex p))
     | _ => none
@@ -43,6 +46,8 @@ inductive Op where
   | tcp (cfg : Cfg) (o : C23.Op)
   | ws (cfg : Cfg) (basic : Option (Bytes × Bytes))
   | wsFull (cfg : Cfg) (basic : Option (Bytes × Bytes)) (o : C23.Op)
+  /-- explicit listener store: `none` = no store, `some users` = a store over these users -/
+  | wsStore (cfg : Cfg) (store : Option (List User)) (basic : Option (Bytes × Bytes)) (o : C23.Op)
 
 partial def parseOp (line : String) : Option Op :=
   match tokens line with
@@ -51,6 +56,13 @@ partial def parseOp (line : String) : Option Op :=
     let o ← C23.parseOp s!"h - {di} {be} {inp}"
     pure (.tcp ⟨en = "1", users⟩ o)
   | ["a", en, us, di, be, inp, _frag] => parseOp s!"a {en} {us} {di} {be} {inp}"
+  | ["ws", en, us, ba, di, be, inp, st] => do
+    let o ← C23.parseOp s!"h - {di} {be} {inp}"
+    let cfg : Cfg := ⟨en = "1", ← parseUsers us⟩
+    if st = "c=agent" then pure (.wsFull cfg (← parseBasic ba) o)
+    else if st = "c=nil" then pure (.wsStore cfg none (← parseBasic ba) o)
+    else if st.startsWith "c=" then pure (.wsStore cfg (some (← parseUsers (st.drop 2).toString)) (← parseBasic ba) o)
+    else none
   | ["ws", en, us, ba, di, be, inp] => do
     let o ← C23.parseOp s!"h - {di} {be} {inp}"
     pure (.wsFull ⟨en = "1", ← parseUsers us⟩ (← parseBasic ba) o)
@@ -71,6 +83,10 @@ def step (line : String) : String :=
     else
       -- the WebSocket connection has no disconnect monitor (NoDeadlineMonitor): no race
       C23.showResult (serveWS bc cfg (o.env false) basic o.input)
+  | some (.wsStore cfg store basic o) =>
+    match serveWSWith bc cfg (o.env false) (store.map (fun us => credStore bc ⟨true, us⟩)) basic o.input with
+    | none => "401"
+    | some r => C23.showResult r
 
 /-! ### spec: C21 on the implementation's own answer -/
 
@@ -141,6 +157,18 @@ def spec (line : String) (implOut0 : String) : String :=
             if g ≠ "ok" then g
             else if act = "none" then "ok"
             else judge cfg (presentedCreds o.input) "unauth-command"
+        | _ => "fail unparsable-output"
+    | some (.wsStore cfg store basic o) =>
+      -- the handler's own requirement, whatever the HTTP gate was configured to do
+      if implOut = "401" then "ok"
+      else match tokens implOut with
+        | ["r", _, "a", act] =>
+          let g := match store with
+            | none => "ok"
+            | some us => judge ⟨true, us⟩ basic "ws-gate-open"
+          if g ≠ "ok" then g
+          else if !cfg.enabled ∨ act = "none" then "ok"
+          else judge cfg (presentedCreds o.input) "unauth-command"
         | _ => "fail unparsable-output"
 
 def main (args : List String) : IO Unit :=
